@@ -429,7 +429,12 @@ Definition mut_active_set_nnls : cmd := active_set_body (InplaceOp 10 2).   (* x
 Definition mode_dot_vec_body (w fs : var) : cmd := seq [
   ListGet 20 fs 1; ListRemove fs 1;           (* factor = factors.pop(mode) *)
   Alloc 21 2;                                 (* factor = dot(vector, factor) *)
-  ListGet 22 fs 0; InplaceOp 22 2 ].          (* factors[mode - 1] *= factor *)
+  ListGet 22 fs 0; Alloc 24 2; ListSet fs 0 24 ].   (* factors[mode - 1] = factors[mode - 1] * factor  (fix 93a737c: no longer in place) *)
+(* before fix 93a737c: factors[mode - 1] *= factor wrote into the neighbouring factor ARRAY *)
+Definition old_mode_dot_vec_body (w fs : var) : cmd := seq [
+  ListGet 20 fs 1; ListRemove fs 1; Alloc 21 2; ListGet 22 fs 0; InplaceOp 22 2 ].
+Definition old_cp_mode_dot_nocopy : cmd := seq [
+  ListGet 10 0 0; ListGet 11 0 1; old_mode_dot_vec_body 10 11; Alloc 23 2; ListSet 0 2 23 ].
 Definition sk_cp_mode_dot_copy : cmd := seq [
   ListGet 10 0 0; ListGet 11 0 1;
   ListGet 12 11 0; Copy 13 12; ListGet 12 11 1; Copy 14 12; ListGet 12 11 2; Copy 15 12;
